@@ -142,6 +142,185 @@ def fmtRun2d (r : Nat) : String :=
   let (n, m, p) := nmpOfRun2d r
   s!"v{n}_{m}_{p}"
 
+/-! ### run2d strings, every string a caller can write (extension round)
+
+`sdss_specobjid` first tries `int(run2d)` and only on `ValueError` the regular expression.  Python's `int()` accepts
+surrounding white space, one sign, single underscores between digits and every Unicode decimal digit (category Nd); `\d`
+of `re` (str patterns) is the same Nd set.  The two tables below are what the running interpreter does (Python 3.12 /
+Unicode 15.0); `harness/xlate/c06_consts.py` re-derives both from the interpreter on every run (`int(chr(c))`,
+`re.fullmatch(r'\d', chr(c))`, `int(chr(c)+'7')`, `int('7'+chr(c))` for every code point) and `Gen/C06Consts.lean`
+checks them equal to these. -/
+
+/-- code points of the digit zero of every Nd block; a block is ten consecutive code points 0..9 -/
+def ndZeros : List Nat :=
+  [48, 1632, 1776, 1984, 2406, 2534, 2662, 2790, 2918, 3046, 3174, 3302, 3430, 3558, 3664, 3792, 3872, 4160, 4240,
+   6112, 6160, 6470, 6608, 6784, 6800, 6992, 7088, 7232, 7248, 42528, 43216, 43264, 43472, 43504, 43600, 44016, 65296,
+   66720, 68912, 69734, 69872, 69942, 70096, 70384, 70736, 70864, 71248, 71360, 71472, 71904, 72016, 72784, 73040,
+   73120, 73552, 92768, 92864, 93008, 120782, 120792, 120802, 120812, 120822, 123200, 123632, 124144, 125264, 130032]
+
+/-- inclusive code point ranges `int()` skips at both ends of the string -/
+def pySpaces : List (Nat × Nat) :=
+  [(9, 13), (32, 32), (133, 133), (160, 160), (5760, 5760), (8192, 8202), (8232, 8233), (8239, 8239), (8287, 8287),
+   (12288, 12288)]
+
+/-- decimal value of a character (`Py_UNICODE_TODECIMAL`), `none` when it is not a decimal digit -/
+def pyDigit (c : Char) : Option Nat :=
+  (ndZeros.find? (fun z => decide (z ≤ c.toNat) && decide (c.toNat < z + 10))).map (fun z => c.toNat - z)
+
+def isNd (c : Char) : Bool := (pyDigit c).isSome
+
+def pyIsSpace (c : Char) : Bool := pySpaces.any (fun r => decide (r.1 ≤ c.toNat) && decide (c.toNat ≤ r.2))
+
+/-- after a digit: more digits, each optionally preceded by ONE underscore; `acc` is the value so far -/
+def pyIntDigits : List Char → Nat → Option Nat
+  | [], acc => some acc
+  | c :: r, acc =>
+    if c = '_' then
+      match r with
+      | [] => none
+      | d :: r' => match pyDigit d with
+        | some v => pyIntDigits r' (acc * 10 + v)
+        | none => none
+    else match pyDigit c with
+      | some v => pyIntDigits r (acc * 10 + v)
+      | none => none
+
+/-- unsigned body of an integer literal in base 10: starts with a digit -/
+def pyIntBody : List Char → Option Nat
+  | [] => none
+  | c :: r => match pyDigit c with
+    | some v => pyIntDigits r v
+    | none => none
+
+def pyStrip (cs : List Char) : List Char := ((cs.dropWhile pyIsSpace).reverse.dropWhile pyIsSpace).reverse
+
+/-- `sys.get_int_max_str_digits()`: `int()` refuses (ValueError) a literal with more digit characters than this,
+leading zeros included (the interpreter's default; re-read from the interpreter by the translator on every run) -/
+def pyMaxDigits : Nat := 4300
+
+def pyIntBodyLim (r : List Char) : Option Nat :=
+  if (r.filter (fun c => c != '_')).length > pyMaxDigits then none else pyIntBody r
+
+/-- `int(s)` for a str `s` (base 10): `none` is ValueError -/
+def pyInt (cs : List Char) : Option Int :=
+  match pyStrip cs with
+  | '+' :: r => (pyIntBodyLim r).map (fun n => (n : Int))
+  | '-' :: r => (pyIntBodyLim r).map (fun n => -(n : Int))
+  | r => (pyIntBodyLim r).map (fun n => (n : Int))
+
+/-- `int(g)` of a regular-expression group `\d+` -/
+def digitsValU (cs : List Char) : Nat := cs.foldl (fun a c => a * 10 + (pyDigit c).getD 0) 0
+
+def spanNd (cs : List Char) : List Char × List Char := (cs.takeWhile isNd, cs.dropWhile isNd)
+
+/-- the three groups of `re.match(r'v(\d+)_(\d+)_(\d+)', s)` with Unicode `\d`: prefix match, greedy groups (a group can
+never give a character back: what follows it must be `_`, which is not a digit) -/
+def matchGroupsU (cs : List Char) : Option (List Char × List Char × List Char) :=
+  match cs with
+  | 'v' :: r =>
+    let (n, r1) := spanNd r
+    if n.isEmpty then none else
+    match r1 with
+    | '_' :: r2 =>
+      let (m, r3) := spanNd r2
+      if m.isEmpty then none else
+      match r3 with
+      | '_' :: r4 =>
+        let (p, _) := spanNd r4
+        if p.isEmpty then none else some (n, m, p)
+      | _ => none
+    | _ => none
+  | _ => none
+
+/-- `[int(g) for g in m.groups()]`; `int(g)` of a group longer than the digit limit is a ValueError as well -/
+def matchVNMPU (cs : List Char) : Option (Nat × Nat × Nat) :=
+  match matchGroupsU cs with
+  | some (n, m, p) =>
+    if n.length > pyMaxDigits || m.length > pyMaxDigits || p.length > pyMaxDigits then none
+    else some (digitsValU n, digitsValU m, digitsValU p)
+  | none => none
+
+/-- what a run2d string denotes: an integer (`int()` accepted it) or a version triple (the expression matched) -/
+inductive Run2dDen where
+  | int (i : Int)
+  | nmp (n m p : Nat)
+deriving Repr, DecidableEq
+
+def denoteRun2d (cs : List Char) : Option Run2dDen :=
+  match pyInt cs with
+  | some i => some (.int i)
+  | none => match matchVNMPU cs with
+    | some (n, m, p) => some (.nmp n m p)
+    | none => none
+
+/-- the run2d number of a denotation (the integer is range-checked later, with the other fields) -/
+def run2dOfDen : Run2dDen → R Int
+  | .int i => pure i
+  | .nmp n m p => (fun (r : Nat) => (r : Int)) <$> run2dOfNMP n m p
+
+/-- the `isinstance(run2d, str)` branch of `sdss_specobjid`, total over all strings -/
+def parseRun2dFull (cs : List Char) : R Int :=
+  match denoteRun2d cs with
+  | some d => run2dOfDen d
+  | none => valueError
+
+/-- scalar call with a string run2d: line/index conflict first, then the string, then ranges and packing -/
+def packSpecStr (plate fiber mjd : Int) (s : List Char) (line index : Option Int) : R Nat :=
+  match line, index with
+  | some _, some _ => valueError
+  | _, _ => do
+    let r ← parseRun2dFull s
+    packSpecLI plate fiber mjd r line index
+
+/-- the string `unwrap_specobjid` gives back for the ID a string call produced -/
+def canonRun2d (r : Int) : List Char := (fmtRun2d r.toNat).toList
+
+/-! ### fixed-width integer columns (extension round)
+Catalogue columns are 8/16/32/64-bit signed or unsigned integers.  `sdss_objid` casts every column with
+`astype(np.int64)` before the range checks; `sdss_specobjid` casts the MJD column to int64 before the offset is removed,
+range-checks the other columns in their own type (NumPy compares an integer array with a Python int exactly) and casts
+with `astype(np.uint64)` for the shifts.  All shifts and ORs are 64-bit machine operations (`BitVec 64`, wrapping). -/
+
+structure IntCol where
+  signed : Bool
+  w : Nat
+  x : BitVec w
+
+/-- the number an element of the column denotes -/
+def IntCol.val (c : IntCol) : Int := if c.signed then c.x.toInt else (c.x.toNat : Int)
+
+/-- `astype(np.int64)` / `astype(np.uint64)` (the same 64 bits): sign extension of a signed, zero extension of an
+unsigned column; for `w = 64` the bits are reinterpreted -/
+def IntCol.to64 (c : IntCol) : BitVec 64 := if c.signed then c.x.signExtend 64 else c.x.setWidth 64
+
+/-- `(x < lo) | (x >= hi)` is false, `x` an int64 -/
+def inRM (x : BitVec 64) (lo hi : Int) : Bool := decide (lo ≤ x.toInt) && decide (x.toInt < hi)
+
+/-- `sdss_objid` on one row of columns of arbitrary integer types (argument order = bit order, as `ObjF`) -/
+def packObjidCols (sv rerun run camcol ff field obj : IntCol) : R (BitVec 64) :=
+  if inRM ff.to64 0 2 && inRM sv.to64 0 16 && inRM rerun.to64 0 (2^11) && inRM run.to64 0 (2^16) &&
+      inRM camcol.to64 1 7 && inRM field.to64 0 (2^12) && inRM obj.to64 0 (2^16)
+  then pure ((sv.to64 <<< 59) ||| (rerun.to64 <<< 48) ||| (run.to64 <<< 32) ||| (camcol.to64 <<< 29) |||
+    (ff.to64 <<< 28) ||| (field.to64 <<< 16) ||| obj.to64)
+  else valueError
+
+/-- `sdss_specobjid` on one row of columns of arbitrary integer types -/
+def packSpecCols (plate fiber mjd run2d line : IntCol) : R (BitVec 64) :=
+  let m := mjd.to64 - 50000#64
+  if inR plate.val 0 (2^14) && inR fiber.val 0 (2^12) && inRM m 0 (2^14) && inR run2d.val 0 (2^14) &&
+      inR line.val 0 (2^10)
+  then pure ((plate.to64 <<< 50) ||| (fiber.to64 <<< 38) ||| (m <<< 24) ||| (run2d.to64 <<< 10) ||| line.to64)
+  else valueError
+
+/-- array form of `sdss_specobjid`: each check is `.any()` over the whole array, then one vector expression -/
+def packSpecs (fs : List SpecF) : R (List Nat) :=
+  if fs.any (fun f => !inR f.plate 0 (2^14)) then valueError
+  else if fs.any (fun f => !inR f.fiber 0 (2^12)) then valueError
+  else if fs.any (fun f => !inR (f.mjd - 50000) 0 (2^14)) then valueError
+  else if fs.any (fun f => !inR f.run2d 0 (2^14)) then valueError
+  else if fs.any (fun f => !inR f.line 0 (2^10)) then valueError
+  else pure (fs.map packSpecRaw)
+
 /-! ### constant tables
 The shift / mask / range constants in one place.  `harness/xlate/c06_consts.py` extracts the same
 tables from the Python source on every run and `Gen/C06Consts.lean` checks them equal to these;
@@ -162,6 +341,12 @@ def objUnpackTable : List (String × Nat × Nat × Nat) :=
 def specUnpackTable : List (String × Nat × Nat × Nat) :=
   [("plate", 50, 16383, 0), ("fiber", 38, 4095, 0), ("mjd", 24, 16383, 50000), ("run2d", 10, 16383, 0), ("line", 0, 1023, 0)]
 def mjdOffset : Int := 50000
+/-- the range checks of `sdss_astrombad` (the only other function of the package that range-checks objID fields; no
+function outside the four ID functions shifts or masks an ID) -/
+def astrombadRangeTable : List (String × Int × Int) := [("run", 0, 65536), ("camcol", 1, 7), ("field", 0, 4096)]
+/-- `sdss_astrombad` accepts (run, camcol, field) -/
+def okAstrombad (run camcol field : Int) : Bool :=
+  inR run 0 (2^16) && inR camcol 1 7 && inR field 0 (2^12)
 
 def val (vals : List (String × Int)) (k : String) : Int := (vals.lookup k).getD 0
 
